@@ -196,10 +196,14 @@ fn gen_plan(seed: u64) -> MacroPlan {
                 [("ck", "cv"), ("dk", "d v")][..nconst].iter().map(|(a, b)| (a.to_string(), b.to_string())).collect()
             };
             let labels: Vec<String> = if kind.is_vec() { ["l1", "l2"][..1 + r.below(2) as usize].iter().map(|s| s.to_string()).collect() } else { vec![] };
-            let buckets = match r.below(3) {
-                0 => DEFAULT_BUCKETS.to_vec(),
-                1 => vec![0.5, 2.0, 8.0],
-                _ => vec![1.0],
+            let buckets = match r.below(6) {
+                0 | 1 => DEFAULT_BUCKETS.to_vec(),
+                2 => vec![0.5, 2.0, 8.0],
+                3 => vec![1.0],
+                // a trailing +Inf is legal (it is dropped by the constructor); a list of only +Inf
+                // leaves a histogram without finite buckets
+                4 => vec![f64::INFINITY],
+                _ => vec![0.25, f64::INFINITY],
             };
             k += 1;
             calls.push(MacroCall {
